@@ -170,7 +170,10 @@ func dial(addr string) *client {
 	return &client{c: c, r: bufio.NewReader(c)}
 }
 
-func (cl *client) send(b []byte) { cl.c.SetWriteDeadline(time.Now().Add(10 * time.Second)); cl.c.Write(b) }
+func (cl *client) send(b []byte) {
+	cl.c.SetWriteDeadline(time.Now().Add(10 * time.Second))
+	cl.c.Write(b)
+}
 
 func (cl *client) frame() (int32, []byte, error) {
 	cl.c.SetReadDeadline(time.Now().Add(20 * time.Second))
@@ -253,23 +256,23 @@ func handleOf(id string) int64 {
 // ---------------------------------------------------------------- a live world
 
 type world struct {
-	idx      int
-	n        *nsqd.NSQD
-	tcp      string
-	http     string
-	maxReq   time.Duration
-	maxRdy   int64
-	maxMsg   time.Duration
-	defMsg   time.Duration
-	k        int
-	reqC     *client
-	reqCh    *nsqd.Channel
-	reqTopic *nsqd.Topic
-	dpubC    *client
-	dpubCh   *nsqd.Channel
-	httpCh   *nsqd.Channel
-	rdyC     *client
-	rdyCh    *nsqd.Channel
+	idx       int
+	n         *nsqd.NSQD
+	tcp       string
+	http      string
+	maxReq    time.Duration
+	maxRdy    int64
+	maxMsg    time.Duration
+	defMsg    time.Duration
+	k         int
+	reqC      *client
+	reqCh     *nsqd.Channel
+	reqTopic  *nsqd.Topic
+	dpubC     *client
+	dpubCh    *nsqd.Channel
+	httpCh    *nsqd.Channel
+	rdyC      *client
+	rdyCh     *nsqd.Channel
 	extraTags []string
 }
 
@@ -536,9 +539,16 @@ func wallClock(o *lib.Out, kinds []string) {
 	}
 	defer n.Exit()
 	w := &world{n: n, tcp: n.RealTCPAddr().String(), http: n.RealHTTPAddr().String()}
+	var prev *nsqd.Topic
 	for k, kind := range kinds {
 		tn := fmt.Sprintf("wall%d", k)
 		topic := n.GetTopic(tn)
+		if prev != nil {
+			// one channel goes, one comes: the NUMBER of channels the scan loop sees at its next
+			// refresh is the same, the set is not - the new channel must be scanned all the same
+			prev.DeleteExistingChannel("c")
+		}
+		prev = topic
 		ch := topic.GetChannel("c")
 		var delay time.Duration
 		var tStart, tRecv int64
@@ -553,9 +563,8 @@ func wallClock(o *lib.Out, kinds []string) {
 			}
 			tStart = time.Now().UnixNano()
 			cl.send([]byte(fmt.Sprintf("REQ %s %d\n", id, delay/time.Millisecond)))
-			if _, err := cl.message(); err != nil {
-				lib.Fatalf("wall req: redelivery: %v", err)
-			}
+			// a redelivery that does not come within the read deadline is recorded as that late
+			cl.message()
 			tRecv = time.Now().UnixNano()
 			cl.c.Close()
 		case "dpub":
@@ -568,9 +577,7 @@ func wallClock(o *lib.Out, kinds []string) {
 			b.WriteString("x")
 			tStart = time.Now().UnixNano()
 			pub.send(b.Bytes())
-			if _, err := cl.message(); err != nil {
-				lib.Fatalf("wall dpub: %v", err)
-			}
+			cl.message()
 			tRecv = time.Now().UnixNano()
 			cl.c.Close()
 			pub.c.Close()
@@ -598,9 +605,7 @@ func wallClock(o *lib.Out, kinds []string) {
 				lib.Fatalf("wall msg_timeout: %v", err)
 			}
 			// no FIN: it must come back after the timeout (RDY 1 is free again once it timed out)
-			if _, err := cl.message(); err != nil {
-				lib.Fatalf("wall msg_timeout: redelivery: %v", err)
-			}
+			cl.message()
 			tRecv = time.Now().UnixNano()
 			cl.c.Close()
 		}
@@ -608,7 +613,7 @@ func wallClock(o *lib.Out, kinds []string) {
 			Coq:   fmt.Sprintf("(J04.Wall %d %s %s)", int64(delay), z(tStart), z(tRecv)),
 			Input: map[string]interface{}{"kind": "wall", "what": kind},
 			Tags:  []string{"kind=wall-clock-" + kind}, Nontrivial: true,
-			Obs:   map[string]interface{}{"delay_ns": int64(delay), "observed_ns": tRecv - tStart, "late_by_ns": tRecv - tStart - int64(delay)}})
+			Obs: map[string]interface{}{"delay_ns": int64(delay), "observed_ns": tRecv - tStart, "late_by_ns": tRecv - tStart - int64(delay)}})
 	}
 }
 
@@ -616,14 +621,14 @@ func wallClock(o *lib.Out, kinds []string) {
 
 type NumIn struct {
 	Batch    []NumIn `json:"batch,omitempty"` // path b10batch
-	Kind     string `json:"kind"`
-	Path     string `json:"path"` // b10 rdy req dpub http msdur msgtimeout
-	World    int    `json:"world"`
-	Spelling string `json:"spelling,omitempty"`
-	B64      string `json:"spelling_b64,omitempty"`
-	V        int64  `json:"v,omitempty"`
-	Class    string `json:"class,omitempty"`
-	What     string `json:"what,omitempty"` // kind "wall"
+	Kind     string  `json:"kind"`
+	Path     string  `json:"path"` // b10 rdy req dpub http msdur msgtimeout
+	World    int     `json:"world"`
+	Spelling string  `json:"spelling,omitempty"`
+	B64      string  `json:"spelling_b64,omitempty"`
+	V        int64   `json:"v,omitempty"`
+	Class    string  `json:"class,omitempty"`
+	What     string  `json:"what,omitempty"` // kind "wall"
 }
 
 func (in NumIn) bytes() []byte {
@@ -774,7 +779,7 @@ func main() {
 	r := lib.NewRand(*seed)
 
 	ws := []*world{
-		newWorld(0, time.Hour, 2500, 15*time.Minute, 60*time.Second),                  // the defaults
+		newWorld(0, time.Hour, 2500, 15*time.Minute, 60*time.Second),                                      // the defaults
 		newWorld(1, 90061*time.Millisecond, 7, 2*time.Second+500*time.Microsecond, 1500*time.Millisecond), // small, not a whole number of ms
 	}
 	defer func() {
